@@ -292,6 +292,7 @@ pub fn run_plan(plan: &Plan) -> Outcome {
         let world = World::new();
         let net = Net::new(world.clone());
         net.install_binder();
+        dropshot::verif_net::set_request_id_seed(Some(plan.seed));
         let ms = Duration::from_millis;
         let server = match start_server(&plan.server, &world) {
             Ok(s) => s,
@@ -444,6 +445,7 @@ pub fn run_plan(plan: &Plan) -> Outcome {
         tokio::time::sleep(ms(5)).await;
         pump.abort();
         dropshot::verif_net::set_binder(None);
+        dropshot::verif_net::set_request_id_seed(None);
         let virtual_ms = world.now_ms();
         let w = world.0.lock().unwrap();
         Outcome {
